@@ -501,6 +501,71 @@ fn directed() -> Vec<Value> {
     v
 }
 
+/// Bounded-exhaustive: every op sequence of length `depth` that is enabled in the state it reaches, on a triangle
+/// of three nodes (one topic). `variant` bit 0: nodes 1 and 2 are subscribed and announced beforehand;
+/// bit 1: node 2 is missing from node 0's partial view; bit 2: links may reorder (deliver the 2nd RPC first).
+fn exhaustive(out: &mut Out, depth: usize, variant: u64, slm: bool) {
+    let mut prefix: Vec<Value> = vec![];
+    for (a, b) in [(0, 1), (1, 2), (0, 2)] {
+        prefix.push(json!({"a": "conn", "x": a, "y": b}));
+        if !(variant & 2 != 0 && (a, b) == (0, 2)) {
+            prefix.push(json!({"a": "view", "x": a, "y": b}));
+        }
+        prefix.push(json!({"a": "view", "x": b, "y": a}));
+    }
+    if variant & 1 != 0 {
+        prefix.push(json!({"a": "sub", "x": 1, "t": 0}));
+        prefix.push(json!({"a": "sub", "x": 2, "t": 0}));
+        prefix.push(json!({"a": "flush"}));
+    }
+    let fifo = variant & 4 == 0;
+    // the enabled ops after `ops` (the scratch network is rebuilt each time: the behaviours cannot be cloned)
+    fn enabled(prefix: &[Value], ops: &[Value], fifo: bool, slm: bool) -> Vec<Value> {
+        let mut net = Net::new(3, 1, &[slm, slm, slm], fifo);
+        let mut subd = [false; 3];
+        for op in prefix.iter().chain(ops.iter()) {
+            net.step(op);
+            if op["a"] == "sub" {
+                subd[op["x"].as_u64().unwrap() as usize] = true;
+            }
+            if op["a"] == "unsub" {
+                subd[op["x"].as_u64().unwrap() as usize] = false;
+            }
+        }
+        let mut v = vec![];
+        for n in 0..3 {
+            v.push(if subd[n] { json!({"a": "unsub", "x": n, "t": 0}) } else { json!({"a": "sub", "x": n, "t": 0}) });
+            // publish() of an unsubscribed node is a no-op: use publish_any there
+            v.push(json!({"a": "pub", "x": n, "ts": [0], "any": !subd[n]}));
+        }
+        for (&(a, b), q) in net.links.iter() {
+            if !q.is_empty() {
+                v.push(json!({"a": "dlv", "x": a, "y": b, "i": 0}));
+                if !fifo && q.len() > 1 {
+                    v.push(json!({"a": "dlv", "x": a, "y": b, "i": 1}));
+                }
+            }
+        }
+        v
+    }
+    let mut stack: Vec<Vec<Value>> = vec![vec![]];
+    while let Some(ops) = stack.pop() {
+        if ops.len() == depth {
+            let mut all = prefix.clone();
+            all.extend(ops);
+            all.push(json!({"a": "flush"}));
+            run_fixed(out, &json!({"n": 3, "t": 1, "slm": [slm, slm, slm], "fifo": fifo, "ops": all}));
+            continue;
+        }
+        for e in enabled(&prefix, &ops, fifo, slm) {
+            // unsubscribing is only interesting after something happened
+            let mut o = ops.clone();
+            o.push(e);
+            stack.push(o);
+        }
+    }
+}
+
 pub fn main(a: &vcommon::Args) {
     vcommon::quiet_panics();
     match a.get(0) {
@@ -509,6 +574,17 @@ pub fn main(a: &vcommon::Args) {
             let mut out = Out::create(a.get(2));
             for s in &scheds {
                 run_fixed(&mut out, s);
+            }
+            println!("runs={} events={}", out.run, out.events);
+            out.finish();
+        }
+        // exhaustive <depth> <variants-bitmask-list e.g. 1,3,5> <out>
+        "exhaustive" => {
+            let depth = a.num(1) as usize;
+            let mut out = Out::create(a.get(3));
+            for v in a.get(2).split(',') {
+                let v: u64 = v.parse().expect("variant");
+                exhaustive(&mut out, depth, v & 7, v & 8 != 0);
             }
             println!("runs={} events={}", out.run, out.events);
             out.finish();
